@@ -12,6 +12,7 @@ mod rng;
 mod router;
 mod size;
 mod smoke;
+mod streams;
 mod timeouts;
 mod tower;
 mod wire;
@@ -50,6 +51,9 @@ fn main() -> anyhow::Result<()> {
     let mut run = Run::new(&prop, seed, tier, work);
     match prop.as_str() {
         "C07" => wire::run_c07(&mut run, replay.as_deref(), &corpus)?,
+        "C02" => streams::run_c02(&mut run)?,
+        "C06" => streams::run_c06(&mut run)?,
+        "C12" => streams::run_c12(&mut run)?,
         "C04" => peers::run_c04(&mut run, replay.as_deref())?,
         "C05" => peers::run_c05(&mut run, replay.as_deref())?,
         "C10" => admission::run_c10(&mut run, replay.as_deref())?,
